@@ -17,6 +17,8 @@ class _T:
     @staticmethod
     def Map(k, v):     return C.TMap(k, v)
     @staticmethod
+    def DefMap(k, v):  return C.TDefMap(k, v)
+    @staticmethod
     def Set(k):        return C.TSet(k)
     @staticmethod
     def Tuple(*ts):    return C.TTuple(ts)
@@ -44,6 +46,7 @@ class Registry:
         self.modfuncs = dict()     # dotted module function -> handler
         self.constructors = dict() # class name -> handler
         self.optional_keys = dict()  # record name -> keys that may be absent
+        self.ambiguous_keys = dict() # record name -> keys absent or present-None
         self.rec_classes = dict()  # record name -> python class names
         self.types   = dict()      # name -> Ty (for forall(..., 'Name'))
         self.finite  = list()      # finite (enumerated) obligations
